@@ -174,6 +174,24 @@ pub fn scale_model(c: &ScaleCase) -> ModelCase {
             texts.push(format!("{}{}{}", "前", word, "後"));
             texts.push(word.chars().take(4999).collect()); // one character short: no match
         }
+        4 | 5 | 6 => {
+            // n-grams of 255 / 256 / 258 / 2W characters (and types) under windows of 128 and more
+            let (cw, tw, n) = [(128u8, 130u8, 256usize), (200, 129, 258), (255, 255, 510)][c.kind as usize - 4];
+            spec.char_window = cw;
+            spec.type_window = tw;
+            let long: String = (0..n.min(2 * cw as usize)).map(|i| ch(i % 211)).collect();
+            let l = long.chars().count();
+            spec.char_ngrams.push(NgramSpec { ngram: long.clone(), weights: (0..2 * cw as usize - l + 1).map(|i| (i % 7) as i32 * 100 + 1000).collect() });
+            let short: String = long.chars().take(255).collect();
+            spec.char_ngrams.push(NgramSpec { ngram: short, weights: (0..2 * cw as usize - 255 + 1).map(|i| (i % 5) as i32 - 2).collect() });
+            spec.char_ngrams.push(NgramSpec { ngram: ch(3).to_string(), weights: (0..2 * cw as usize).map(|i| (i % 3) as i32 - 1).collect() });
+            let tl = n.min(2 * tw as usize);
+            spec.type_ngrams.push(NgramSpec { ngram: vec![5; tl], weights: (0..2 * tw as usize - tl + 1).map(|i| (i % 9) as i32 * 10 + 500).collect() });
+            spec.type_ngrams.push(NgramSpec { ngram: vec![5, 5], weights: (0..2 * tw as usize - 1).map(|i| (i % 4) as i32 - 1).collect() });
+            texts.push(format!("前の{long}後ろ"));
+            texts.push(format!("{long}{long}"));
+            texts.push(long.chars().take(l - 1).collect());
+        }
         _ => {
             // window 255 with 12-character n-grams and a text longer than the window
             spec.char_window = 255;
@@ -194,9 +212,10 @@ pub fn run(rep: &mut Report) {
         "scale-cases",
         "deterministic cases at a scale the random generator does not reach: a 70,000-character \
 text with overlapping/suffix patterns, 70,000 n-grams, a 5,000-character dictionary word with a \
-suffix word, window 255 with 12-character n-grams on a 750-character text; same oracle",
+suffix word, window 255 with 12-character n-grams on a 750-character text, n-grams of 255 .. 510 \
+characters and types under windows of 128 .. 255; same oracle",
         false,
-        (0u8..4).map(|kind| ScaleCase { kind }),
+        [0u8, 1, 2, 3, 4, 5, 6].into_iter().map(|kind| ScaleCase { kind }),
         |c: &ScaleCase| test_case(&scale_model(c)).map(|mut i| { i.nontrivial = true; i }),
     );
     let n = rep.n(15000, 750000);
